@@ -59,6 +59,7 @@ type plySpec struct {
 	pre, mid, post []plyHItem
 	vprops         []plySpecProp
 	verts          [][]float64 // uchar / int stored as the integer value
+	longDecimals   bool        // ASCII values whose exact decimal expansion is longer than the shortest round-trip text
 	face           *plySpecFaceElem
 }
 
@@ -338,6 +339,12 @@ func (c *Ctx) plySpecVal(format, ty string) float64 {
 		if format != "ascii" && c.Rng.Intn(2) == 0 {
 			return float64(float32((c.Rng.Float64()*2 - 1) * 1000))
 		}
+		if format == "ascii" && plySpecLongDecimals {
+			// float32 bit patterns across exponents −30..+10: many significant digits, small magnitudes
+			e := c.Rng.Intn(41) - 30
+			bits := uint32(c.Rng.Intn(2))<<31 | uint32(127+e)<<23 | uint32(c.Rng.Intn(1<<23))
+			return float64(math.Float32frombits(bits))
+		}
 		return c.plyNice()
 	default: // double
 		if format != "ascii" && c.Rng.Intn(2) == 0 {
@@ -369,8 +376,13 @@ func (c *Ctx) plyItems(max int) []plyHItem {
 	return out
 }
 
+var plySpecLongDecimals bool
+
 func (c *Ctx) plySpecGen() plySpec {
 	s := plySpec{format: []string{"ascii", "le", "be"}[c.Rng.Intn(3)], crlf: c.Rng.Intn(3) == 0}
+	s.longDecimals = s.format == "ascii" && c.Rng.Intn(3) == 0
+	plySpecLongDecimals = s.longDecimals
+	defer func() { plySpecLongDecimals = false }()
 	s.pre, s.mid, s.post = c.plyItems(3), c.plyItems(2), c.plyItems(2)
 	vecTy := func() string { return []string{"float", "float", "double", "int", "uchar"}[c.Rng.Intn(5)] }
 	addGroup := func(names []string, ty string) {
@@ -534,7 +546,13 @@ func (c *Ctx) plySpecCase(s plySpec, holdsOp string) { c.plySpecCaseEP(s, holdsO
 func (c *Ctx) plySpecCaseEP(s plySpec, holdsOp string, fullEntries bool) {
 	data := plyRefEncode(s)
 	st := plySpecTok(s)
-	c.Emit("c08.encode", st, plyHx(data))
+	if s.longDecimals {
+		// the Lean reference encoder prints exact decimal expansions, this one the shortest round-trip text: same
+		// numbers, different bytes — the encoder cross-check is left out, everything else is evaluated
+		c.Note("encode-line-skipped(long decimals)")
+	} else {
+		c.Emit("c08.encode", st, plyHx(data))
+	}
 	c.Emit("c08.header", plyHx(data), plyImplReadHeader(data))
 	rs, _ := plyImplReadMesh(data)
 	c.Emit("c08.read", plyHx(data), rs)
